@@ -246,14 +246,17 @@ func (rd *HandlingDataManager) initializeStreams() (err error) {
 			return err
 		}
 	}
-	rd.stream = stream
-	rd.stream.WithHub(rd.lunarHub)
+	// The new engine replaces the running one only once it is fully built: transactions arriving
+	// during a reload are handled by the old flows, never by an empty, half-initialised engine,
+	// and a failed initialisation leaves the running flows in place.
+	stream.WithHub(rd.lunarHub)
 	if verifhook.Enabled {
 		verifhook.Yield("reload.published")
 	}
-	if err = rd.stream.Initialize(); err != nil {
+	if err = stream.Initialize(); err != nil {
 		return fmt.Errorf("failed to initialize streams: %w", err)
 	}
+	rd.stream = stream
 
 	rd.stream.InitializeHubCommunication()
 	if err = config.WaitForProxyHealthcheck(); err != nil {
